@@ -16,7 +16,8 @@ RULE = ("Hypothesis draws a C01-style operator tree (square, tall, wide) and an 
         "repeated rows); sub-operators are densified and multiplied into real/complex operands. Oracle: the same expression "
         "on the NumPy reference matrix (two index arrays select the sub-matrix M[r][:,c] per Sliced's docstring; two lists "
         "select paired entries). Non-trivial: non-square or non-Dense operator, negative/strided/empty slice, index array, "
-        "list pair, or complex operand.")
+        "list pair, or complex operand. One A[s1,s2] case in four passes the very same index array object (negative "
+        "entries) for both axes of a possibly non-square operator.")
 ASSUMPTIONS = [
     "two index arrays mean the sub-matrix M[rows][:, cols] (docstring of Sliced); two Python lists mean paired entries (tests/test_operators.py::test_get_item)",
     "NotImplementedError for an index form the signature does not list is a clean rejection, not a failure",
@@ -80,6 +81,11 @@ def cases(draw, tier):
             if len(set(pos)) == len(pos) and len(pos) >= 2:
                 perm = g.draw(st.permutations(pos))
                 idx["a"], idx["b"] = {"ix": [int(p) for p in pos]}, {"ix": [int(p) for p in perm]}
+        if min(r, c) >= 1 and g.integer(1, 4) == 1:
+            # one index array object used for both axes (negative entries count from the end of each axis separately)
+            sh = gen_ix(g, min(r, c), uniq)
+            if not uniq or all(len({p % n for p in sh["ix"]}) == len(sh["ix"]) for n in (r, c)):
+                idx["a"], idx["b"], idx["shared"] = sh, {"ix": list(sh["ix"])}, True
     if form == "ll":
         m = g.integer(1, 4)
         idx["a"] = {"li": [g.integer(-r, r - 1) for _ in range(m)]}
@@ -101,6 +107,8 @@ def pyindex(idx):
     b = IR.dec_index(idx["b"]) if "b" in idx else None
     if f in ("i", "s"):
         return a
+    if idx.get("shared"):
+        return (a, a)  # the very same array object on both axes
     return (a, b)
 
 
@@ -171,7 +179,7 @@ def check(case, out):
     X = IR.dec(case["X"]) if "X" in case else None
     fails, R = eval_case(tree, idx, X, case.get("row"))
     out.label(*TP.tree_labels(tree, R))
-    out.label("form:" + idx["form"])
+    out.label("form:" + idx["form"] + (":shared_array" if idx.get("shared") else ""))
     for key in ("a", "b"):
         if key in idx:
             s = idx[key]
